@@ -811,8 +811,8 @@ def run_check(ctx, prop, props_module, level):
         level, cov,
         assumptions=["one fputs() on a FILE is atomic with respect to other threads (POSIX stdio locking)",
                      "read(2) on the scripted descriptor delivers min(request, available) bytes, then EAGAIN or EOF",
-                     "the index-level cbuf model refines the FIFO specification + policy used by the theorems "
-                     "(property C13; exercised here by running both instances against the real code)",
+                     "(no assumption about the buffer: the index-level cbuf model that is run against cbuf.c "
+                     "provably simulates the FIFO specification + policy of the theorems, Relay/IndexSim.lean)",
                      "domain: no NUL, every line (with its newline) and the final fragment <= 131072 bytes, no "
                      "return-code marker inside a stdout line; host names shorter than LINEBUFSIZE without NUL",
                      "one handler thread per host (as in dsh.c); interleaving between hosts is by whole stdio call"],
